@@ -23,6 +23,8 @@ def run(ctx, col, tier):
     col.rule("R-SENT", "the 'no parent' marker -1 survives arithmetic on the parent-id column: the "
              "arithmetic is masked against -1, or every -1 row (not just the first root) is restored",
              floor=3)
+    col.rule("R-ROOTCMP", "every comparison of a parent id with an integer constant separates "
+             "exactly the root marker -1 (table over parent ids {-1, 0, 1, 2, 7})", floor=8, exhaustive=True)
     col.rule("R-RANK", "union by rank decision table over rank[a] ? rank[b]: the smaller-rank root "
              "is re-parented; on equality exactly one is re-parented and the new root's rank grows "
              "by one; find compresses paths; union only joins different roots", floor=6, exhaustive=True)
@@ -49,6 +51,9 @@ def run(ctx, col, tier):
     dispatch(ctx, col)
     checkers(ctx, col)
     cg_rule(ctx, col)
+    from ..rules import rootcmp
+    rootcmp.check(ctx, col, "R-ROOTCMP", ("swcgeom.core.swc_utils.io", "swcgeom.core.swc_utils.normalizer",
+                                           "swcgeom.core.swc_utils.base", "swcgeom.core.swc_utils.checker"))
 
 
 def api(ctx, col, tier):
